@@ -3,6 +3,7 @@ import VtProofs.Source
 import VtProofs.BBoxGrid
 import VtProofs.VersatilesWrite
 import VtProofs.PMTilesWrite
+import VtProofs.TarRead
 /-!
 Capstone: the hypotheses of the container round-trip theorems are discharged from the other
 properties' notions — a `Good` source (C02: the bbox stream is, for every box, exactly what the
@@ -262,5 +263,67 @@ theorem convert_roundtrip_pmtiles (K : Inflate) (enc : Bytes → Bytes) (s : Src
   unfold lookupOpt
   rw [hlk]
   cases o <;> rfl
+
+/-! ### tar / directory -/
+
+/-- the tar / directory writers' view of a source (they stream whole level boxes) -/
+def wsource (s : Src Bytes) (fmt : TileFormat) (comp : TComp) (metaB : Bytes) : TarDir.WSource :=
+  ⟨fmt, comp, metaB, levelsOf s, streamOf s⟩
+
+theorem level_wf {s : Src Bytes} (hw : s.cover.WF) {L : BBox} (hL : L ∈ levelsOf s) : L.WF := by
+  have := levels_boxOk hw L hL
+  exact ⟨this.lvl, this.xm, this.ym⟩
+
+/-- **C02 + C03 ⇒ the tar / directory writers' assumptions** -/
+theorem wok_of_good (K : Inflate) {s : Src Bytes} (hg : Good s) (fmt : TileFormat) (comp : TComp) (metaB : Bytes)
+    (hmeta : ∃ raw, K.run comp metaB = .ok raw) (hne : (levelsOf s).flatMap (streamOf s) ≠ []) :
+    VtProofs.TarRead.WOk K (wsource s fmt comp metaB) := by
+  have hw := hg.cover_wf
+  have hok := levels_boxOk hw
+  refine ⟨?_, ?_, hne, hmeta⟩
+  · intro t ht
+    rw [List.mem_flatMap] at ht
+    obtain ⟨L, hL, htL⟩ := ht
+    have ⟨a1, _, _⟩ := cell_stream hg (level_wf hw hL)
+    obtain ⟨c1, c2, _⟩ := a1 t htL
+    have hb := hok L hL
+    rw [VtProofs.VersatilesGrid.contains2_iff] at c1
+    have hp : 2 ^ L.level ≤ 2 ^ 31 := Nat.pow_le_pow_right (by omega) hb.lvl
+    have := hb.xm; have := hb.ym
+    exact ⟨by rw [c2]; exact hb.lvl, by omega, by omega⟩
+  · show (((levelsOf s).flatMap (streamOf s)).map (·.1)).Nodup
+    rw [List.map_flatMap, List.nodup_iff_pairwise_ne, List.pairwise_flatMap]
+    constructor
+    · intro L hL
+      have ⟨_, a2, _⟩ := cell_stream hg (level_wf hw hL)
+      rw [List.nodup_iff_pairwise_ne] at a2
+      exact a2
+    · apply List.Pairwise.imp_of_mem _ (levels_sorted hw)
+      intro L1 L2 h1 h2 hlt x hx y hy hxy
+      rw [List.mem_map] at hx hy
+      obtain ⟨t, ht, rfl⟩ := hx
+      obtain ⟨u, hu, rfl⟩ := hy
+      have ⟨a1, _, _⟩ := cell_stream hg (level_wf hw h1)
+      have ⟨b1, _, _⟩ := cell_stream hg (level_wf hw h2)
+      have e1 := (a1 t ht).2.1
+      have e2 := (b1 u hu).2.1
+      rw [hxy] at e1
+      omega
+
+/-- **C01 ∘ C02 ∘ C03 (tar)** -/
+theorem convert_roundtrip_tar (K : Inflate) (s : Src Bytes) (hg : Good s) (fmt : TileFormat) (comp : TComp) (metaB : Bytes)
+    (hmeta : ∃ raw, K.run comp metaB = .ok raw) (hne : (levelsOf s).flatMap (streamOf s) ≠ []) :
+    ∃ r, TarDir.openTar K (TarDir.writeFiles (wsource s fmt comp metaB)) = .ok r ∧ r.fmt = fmt ∧ r.comp = comp ∧
+      (∀ t ∈ (levelsOf s).flatMap (streamOf s), TarDir.getTile r t.1.1 t.1.2.1 t.1.2.2 = .ok (some t.2)) ∧
+      (∀ x y z, (∀ t ∈ (levelsOf s).flatMap (streamOf s), t.1 ≠ (x, y, z)) → TarDir.getTile r x y z = .ok none) :=
+  VtProofs.TarRead.tar_roundtrip K _ (wok_of_good K hg fmt comp metaB hmeta hne)
+
+/-- **C01 ∘ C02 ∘ C03 (directory)** -/
+theorem convert_roundtrip_dir (K : Inflate) (s : Src Bytes) (hg : Good s) (fmt : TileFormat) (comp : TComp) (metaB : Bytes)
+    (hmeta : ∃ raw, K.run comp metaB = .ok raw) (hne : (levelsOf s).flatMap (streamOf s) ≠ []) :
+    ∃ r, TarDir.openDir K (TarDir.writeFiles (wsource s fmt comp metaB)) = .ok r ∧ r.fmt = fmt ∧ r.comp = comp ∧
+      (∀ t ∈ (levelsOf s).flatMap (streamOf s), TarDir.getTile r t.1.1 t.1.2.1 t.1.2.2 = .ok (some t.2)) ∧
+      (∀ x y z, (∀ t ∈ (levelsOf s).flatMap (streamOf s), t.1 ≠ (x, y, z)) → TarDir.getTile r x y z = .ok none) :=
+  VtProofs.TarRead.dir_roundtrip K _ (wok_of_good K hg fmt comp metaB hmeta hne)
 
 end VtProofs.Capstone
